@@ -745,6 +745,24 @@ Proof.
   - repeat split; intros; try destruct ctx; reflexivity.
 Qed.
 
+(* ================================================================== one limiter per installed middleware *)
+(* The bound of t_maxconns_bound is a property of ONE latch shared by all requests of the installed middleware.  A latch
+   built per request (a guard constructor re-run on every call) lets everybody in: *)
+Lemma t_limiter_state_is_shared : forall n, 0 < n ->
+  (forall s, mstep n (MEnter 0) (minit 1) = Some s -> nth_error (ms_reqs s) 0 = Some MIn) /\
+  (exists s, mstep n (MEnter 0) (minit 1) = Some s) /\
+  (* whereas with one shared latch the (n+1)-th arrival is turned away *)
+  (forall reqs ls s i s', mrun n ls (minit reqs) = Some s -> Z.of_nat (inside s) = n ->
+     mstep n (MEnter i) s = Some s' -> nth_error (ms_reqs s') i = Some MRejected).
+Proof.
+  intros n Hn. assert (E : (n <=? 0) = false) by lia. split; [|split].
+  - intros s H. simpl in H. rewrite E in H. unfold try_borrow in H. simpl in H.
+    destruct (0 <? n) eqn:L; [|lia]. inversion H; subst. reflexivity.
+  - simpl. rewrite E. unfold try_borrow. simpl. destruct (0 <? n) eqn:L; [eauto|lia].
+  - intros reqs ls s i s' H Hin Hs. pose proof (mrun_inv n ls _ _ (minv_init n reqs) H) as I.
+    apply (proj1 (enter_rejected_iff n s s' i I Hs)). split; assumption.
+Qed.
+
 (* ================================================================== the statements of Props.v *)
 Lemma t_exactly_one_response : forall recover rh0 acts ls s,
   run recover ls (init rh0 acts) = Some s ->
